@@ -18,24 +18,27 @@ INT_MIN, INT_MAX = -2 ** 31, 2 ** 31 - 1
 ABSENT = ("absent",)
 
 
-def canon(v):
+def canon(v, depth=0):
     if v is None:
         return "null"
     if v is True:
         return "true"
     if v is False:
         return "false"
-    if isinstance(v, int):
-        return "i%d" % v
-    if isinstance(v, float):
+    t = type(v)
+    if t is int:
+        return "i%d" % v if abs(v) < 10 ** 30 else "i~%d" % v.bit_length()
+    if t is float:
         return "f%r" % v
-    if isinstance(v, str):
-        return json.dumps(v)
-    if isinstance(v, (list, tuple)) and type(v) in (list, tuple):
-        return ("[" if isinstance(v, list) else "(") + ",".join(canon(x) for x in v) + "]"
-    if type(v) is dict:
-        return "{" + ",".join(json.dumps(str(k)) + ":" + canon(v[k]) for k in sorted(v, key=str)) + "}"
-    return "<%s:%s>" % (type(v).__name__, _safe_repr(v))
+    if t is str:
+        return json.dumps(v) if len(v) < 200 else json.dumps(v[:200]) + "~%d" % len(v)
+    if depth > 8:
+        return "~deep"
+    if t in (list, tuple):
+        return ("[" if t is list else "(") + ",".join(canon(x, depth + 1) for x in v) + "]"
+    if t is dict:
+        return "{" + ",".join(json.dumps(str(k)) + ":" + canon(v[k], depth + 1) for k in sorted(v, key=str)) + "}"
+    return "<%s:%s>" % (t.__name__, _safe_repr(v))
 
 
 def _safe_repr(v):
